@@ -63,13 +63,14 @@ instance : One GFp := ⟨newGFp 1⟩
 def bitsLE (words : List Nat) : List Bool :=
   words.flatMap fun w => (List.range 64).map fun i => (w >>> i) % 2 == 1
 
+/-- the loop of gfP.Invert: for every bit (least significant first)
+`if bit { sum = sum·power }; power = power·power` -/
+def invLoopG (bits : List Bool) (st : GFp × GFp) : GFp × GFp :=
+  bits.foldl (fun st bit => (if bit then st.1 * st.2 else st.1, st.2 * st.2)) st
+
 /-- gfP.Invert: square-and-multiply over the `bits` table, starting from rN1, fixed up by r3 -/
 def invert (f : GFp) : GFp :=
-  let r := (bitsLE Gen.Bn256.invertBits).foldl
-    (fun (st : GFp × GFp) bit =>
-      let sum := if bit then st.1 * st.2 else st.1
-      (sum, st.2 * st.2)) (rN1, f)
-  r.1 * r3
+  (invLoopG (bitsLE Gen.Bn256.invertBits) (rN1, f)).1 * r3
 
 instance : Inv GFp := ⟨invert⟩
 
